@@ -19,6 +19,7 @@ import Driver.Cancel
 import Driver.Sasl
 import Driver.Txn
 import Driver.Typed
+import Driver.DetachHold
 
 structure DState where
   sess : Amqp.Session.St := Amqp.Session.init 0 0 0
@@ -82,6 +83,7 @@ def handle (st : DState) (line : String) : DState × String :=
   | "X" :: ws => (st, (Driver.Sasl.step ws).getD "bad-op")
   | "T" :: ws => (st, (Driver.Txn.step ws).getD "bad-op")
   | "G" :: ws => (st, (Driver.Typed.step ws).getD "bad-op")
+  | "D" :: ws => (st, (Driver.DetachHold.step ws).getD "bad-op")
   | "N" :: ws =>
     match Driver.Limits.step st.limits ws with
     | some (s, out) => ({ st with limits := s }, out)
